@@ -498,6 +498,8 @@ func execScenario(c *runCtx, sc *scenario, eo *execOpts) ([]string, error) {
 	p := mpb.NewWithContext(ctx, opts...)
 	bars := make([]*mpb.Bar, len(sc.bars))
 	writeSeq := map[int]int{}
+	holds := map[int]chan struct{}{}
+	scratch := make([]byte, 0, 256) // one buffer for every Write: the caller owns it again as soon as Write returns
 
 	hang := func(what string) ([]string, error) {
 		buf := make([]byte, 1<<20)
@@ -539,6 +541,16 @@ func execScenario(c *runCtx, sc *scenario, eo *execOpts) ([]string, error) {
 					select {
 					case manual <- time.Now():
 						sent = true
+						if sc.fault != "" {
+							// a second request arrives while the cycle is running: the listener is then
+							// blocked forwarding it when a render error stops the container
+							go func() {
+								select {
+								case manual <- time.Now():
+								case <-time.After(50 * time.Millisecond):
+								}
+							}()
+						}
 					case <-time.After(10 * time.Millisecond):
 					}
 				} else {
@@ -746,17 +758,55 @@ func execScenario(c *runCtx, sc *scenario, eo *execOpts) ([]string, error) {
 			w, nl := ai(1), ai(2)
 			seq := writeSeq[w]
 			writeSeq[w]++
-			var sb bytes.Buffer
+			sb := bytes.NewBuffer(scratch[:0])
 			for l := 0; l < nl; l++ {
-				fmt.Fprintf(&sb, "T%d.%d.%d\n", w, seq, l)
+				fmt.Fprintf(sb, "T%d.%d.%d\n", w, seq, l)
 			}
 			t.add(0, "CL_WRITE %d %d %d", w, seq, nl)
 			var n int
 			var err error
-			if !withTimeout(func() { n, err = p.Write(sb.Bytes()) }) {
+			msg := sb.Bytes()
+			if !withTimeout(func() { n, err = p.Write(msg) }) {
 				return hang("write")
 			}
+			for j := range msg { // io.Writer: the slice is the caller's again
+				msg[j] = '#'
+			}
 			t.add(0, "RET_WRITE %d %d %d %d", w, seq, n, b2i(err == nil))
+		case "hold": // keep the actor of bar i busy inside a TraverseDecorators callback until "release i"
+			i := ai(1)
+			if bars[i] == nil || holds[i] != nil {
+				continue
+			}
+			gate, entered := make(chan struct{}), make(chan struct{}, 1)
+			holds[i] = gate
+			b := bars[i]
+			go func() {
+				first := true
+				b.TraverseDecorators(func(decor.Decorator) {
+					if first {
+						first = false
+						entered <- struct{}{}
+						<-gate
+					}
+				})
+			}()
+			select {
+			case <-entered:
+				t.add(0, "CL_HOLD b%d", i)
+			case <-time.After(200 * time.Millisecond): // the bar has stopped already: nothing to hold
+				close(gate)
+				delete(holds, i)
+			}
+		case "release":
+			i := ai(1)
+			if g := holds[i]; g != nil {
+				time.Sleep(2 * time.Millisecond) // whatever was sent to the busy actor meanwhile is waiting now
+				close(g)
+				delete(holds, i)
+				t.add(0, "CL_RELEASE b%d", i)
+				time.Sleep(time.Millisecond)
+			}
 		case "tick":
 			t.add(0, "CL_TICK")
 			if !doTick() {
@@ -783,12 +833,20 @@ func execScenario(c *runCtx, sc *scenario, eo *execOpts) ([]string, error) {
 			t.add(0, "CL_CANCEL")
 			cancel()
 		case "shutdown":
+			for i, g := range holds {
+				close(g)
+				delete(holds, i)
+			}
 			t.add(0, "CL_CANCEL")
 			if !withTimeout(p.Shutdown) {
 				return hang("shutdown")
 			}
 			t.add(0, "RET_SHUTDOWN")
 		case "wait":
+			for i, g := range holds {
+				close(g)
+				delete(holds, i)
+			}
 			t.add(0, "CL_WAIT")
 			// The real ticker is silenced (one hour): while Wait is pending the
 			// harness plays the ticker's part, as wall-clock time would.
